@@ -31,6 +31,9 @@ func normEnum(n string) string {
 
 func c06() []*Ob {
 	return []*Ob{
+		{Prop: "C06", ID: "C06.12", Engine: "MUST-SEND", Floor: 1,
+			Desc:  "an aggregation over several shards is the aggregation of all of them or is flagged: every shard goroutine of searchStores sends its response or its error (shared rule with C16.12) — a shard dropped silently on a context that ended mid-fan-out makes counts, sums and histogram buckets those of the remaining shards, returned with a nil error",
+			Check: shared("C16.12")},
 		{Prop: "C06", ID: "C06.11", Engine: "SHAPE(accumulation)", Floor: 3,
 			Desc:  "merging partial results adds up: a numeric field that SamplesContainer.Merge updates as own + operand's is a counter; every other store of the operand's value into it is a copy under 'own value is zero' (or, for the counters that are only updated when the operand has samples, under own Total == 0). NotExists is counted for parts without samples too, so a 'destination is empty' fast path that copies it loses the not-exists count of the parts merged before — for some merge orders only",
 			Check: func(c *Ctx) { mergeAccumulates(c) }},
